@@ -886,7 +886,7 @@ def _diff(got, exp):
 
 
 S_THR = [0.5, 1.25]
-S_RATES = [0.05, 0.5]
+S_RATES = [0.05, 0.5, 0.9]
 S_ADAPT = [1, 4]
 
 
